@@ -307,6 +307,7 @@ def _ob(name, v, w, dt, functions, replay, what):
             try:
                 rep, info = replay(w)
                 wit['native'] = info
+                wit['input'] = w
             except Exception as e:  # noqa
                 wit['native'] = 'replay error: %r' % (e,)
         return Ob(name, 'D', 'reglan:z3', REFUTED, dt, '%s; witness %r' % (what, w), wit, functions=functions,
